@@ -30,10 +30,12 @@ def main(tier):
             f.write('%d %d %d %s\n' % (len(st), bx, by, ' '.join(' '.join(map(str, r)) for r in st)))
     V.run([hr, 'gen', str(400 if quick else 6000), str(V.seed()), os.path.join(d, 'rand.txt'), '10'], check=True)
     V.run([hr, 'gen', str(60 if quick else 1500), str(V.seed() + 3), os.path.join(d, 'big.txt'), '30'], check=True)
+    # "up to hundreds of rectangles": 100..300 (quick) / 100..400 (thorough) rectangles, results of removeoverlaps only
+    V.run([hr, 'gen', str(12 if quick else 200), str(V.seed() + 5), os.path.join(d, 'huge.txt'), '300' if quick else '400', '100'], check=True)
     total = nontriv = runs = 0
-    for name, chunk in (('enum', 100), ('rand', 10), ('big', 4)):
+    for name, chunk in (('enum', 100), ('rand', 10), ('big', 4), ('huge', 1)):
         rf = os.path.join(d, name + '.json')
-        rc, out = V.run([hr, 'recs', os.path.join(d, name + '.txt'), rf, str(chunk)], timeout=1800, env={'VERIF_SEED': V.seed()})
+        rc, out = V.run([hr, 'recs', os.path.join(d, name + '.txt'), rf, str(chunk)] + (['nogen'] if name == 'huge' else []), timeout=1800, env={'VERIF_SEED': V.seed()})
         if rc != 0:
             raise V.Broken('h_rect failed rc=%d: %s' % (rc, out[-2000:]))
         r = V.tlc(SPT, cfg(d, 'recs', 'Spec', 2, 2), env={'RORECS': rf}, timeout=3000, cont=True, mem='16g')
@@ -62,11 +64,12 @@ def main(tier):
     ev.cov['distinct_nontrivial'] = nontriv
     ev.cov['traces_validated_against_impl'] = runs
     ev.cov['rule'] = ('rectangle sets = every multiset of 2 rectangles with corners on a %dx%d grid and of 3 on a %dx%d grid (TLC-enumerated; identical, nested, thin, touching) '
-                      '+ seeded random sets up to 30 rectangles (identical, chains, thin); runs = set x fixed subset (all for n<=3) x thirdPass; '
-                      'non-trivial = sets with an overlapping pair at entry, counted by TLC' % (g2, g2, g3, g3))
+                      '+ seeded random sets up to 30 rectangles (identical, chains, thin) + sets of 100..%d rectangles (results only, no fixed subset); runs = set x fixed subset (all for n<=3) x thirdPass; '
+                      'non-trivial = sets with an overlapping pair at entry, counted by TLC' % (g2, g2, g3, g3, 300 if quick else 400))
     ev.assumptions = ['output geometry observed on a 2^-20 lattice: overlaps below 3e-6 are not detected',
                       'the fixed-rectangle clause is evaluated only when the fixed rectangles are pairwise disjoint at entry',
-                      'generator clause: X constraints with neighbour lists are only required to be acyclic (they leave some pairs to the Y pass by design)']
+                      'generator clause: X constraints with neighbour lists are only required to be acyclic (they leave some pairs to the Y pass by design)',
+                      'sets of 100 and more rectangles: the generator clause (all-pairs longest paths) and the fixed-rectangle clause are not evaluated, they are decided on the sets of up to 30']
     rc = vd.finish()
     ev.write()
     return rc
